@@ -1911,7 +1911,25 @@ def extension_cases(tier):
                 for k in range(5):
                     for j in range(5):
                         cases.append({'family': 'transit', 'model': mname, 'variant': variant, 'ns': [n, k, j]})
+    # sequences of two covariate effects on the same parameter: every ordered pair of operations and effect kinds
+    cases.extend(cov2_cases(tier))
+    # add_iiv (with remove_iiv afterwards) and remove_iiv on parameters whose statement already contains an
+    # exponential factor with a sum inside (IIV + IOV etas, IIV eta + covariate effect)
+    for mname, variant, pars in _EXP_SUM_MODELS:
+        for par in pars:
+            for expr in ('add', 'prop', 'exp', 'log', 're_log'):
+                for op in (('*', '+') if expr == 'exp' else ('*',)):
+                    cases.append({'family': 'iiv', 'model': mname, 'variant': variant, 'parameter': par,
+                                  'expression': expr, 'operation': op})
+    for mname, variant, pars in _EXP_SUM_MODELS:
+        for tg in pars + ([None] if variant != 'none' else []):
+            if variant != 'none' or tg not in ('CL', 'KA'):
+                cases.append({'family': 'remove_iiv', 'model': mname, 'variant': variant, 'target': tg})
     return cases
+
+
+_EXP_SUM_MODELS = (('moxo', 'none', ['CL', 'KA']), ('pheno', 'add_iov_FA1', ['CL', 'VC']),
+                   ('pheno', 'add_covariate_effect_CL_APGR_exp', ['CL']))
 
 
 _TRANSIT_MODELS = (('pheno', 'none'), ('moxo', 'none'), ('pheno', 'set_first_order_absorption'),
@@ -2178,6 +2196,185 @@ def _check_cov_effect(case, fail, m0, m1, K):
         fail.items.extend(f2.items)
 
 
+# -- sequences of two covariate effects on the same parameter -----------------------------------------------
+
+def _cov_for(mname, eff, first, avoid=None):
+    """covariate used for an effect kind in a sequence: the first (second step: the last) covariate of the
+    kind (continuous / categorical) that differs from `avoid`"""
+    _, cont, cat = _COV_MODELS[mname]
+    lst = list(cont if eff in _CONT else cat)
+    for c in (lst if first else lst[::-1]):
+        if c != avoid:
+            return c
+    return None
+
+
+def cov2_cases(tier):
+    cases = []
+    ops = [('*', '+'), ('+', '*'), ('*', '*'), ('+', '+')]
+    if tier == 'thorough':
+        for mname in ('pheno', 'moxo'):
+            pars, cont, cat = _COV_MODELS[mname]
+            for par in pars:
+                for e1 in _CONT + _CAT:
+                    for e2 in _CONT + _CAT:
+                        for c1 in (cont if e1 in _CONT else cat):
+                            for c2 in (cont if e2 in _CONT else cat):
+                                if c1 != c2:
+                                    for o1, o2 in ops:
+                                        cases.append({'family': 'cov2', 'model': mname, 'parameter': par,
+                                                      'steps': [[c1, e1, o1], [c2, e2, o2]]})
+        return cases
+    for mname, par, effs in (('pheno', 'CL', _CONT + _CAT), ('moxo', 'V', ('lin', 'exp', 'cat'))):
+        for e1 in effs:
+            for e2 in effs:
+                c1 = _cov_for(mname, e1, True)
+                c2 = _cov_for(mname, e2, False, avoid=c1)
+                for o1, o2 in ops:
+                    cases.append({'family': 'cov2', 'model': mname, 'parameter': par,
+                                  'steps': [[c1, e1, o1], [c2, e2, o2]]})
+    return cases
+
+
+def _effect_as_documented(eff, got, c, ref, cats, th):
+    """is `got` the value of the documented effect function `eff` at covariate value c?  th: values of the new
+    thetas.  None when the documentation does not determine the value at c"""
+    if eff in _CONT:
+        if (eff == 'piece_lin') != (len(th) == 2) or len(th) not in (1, 2):
+            return False
+        try:
+            t = ref_template(eff, c, th, ref)
+        except (ZeroDivisionError, ValueError, OverflowError):
+            return None
+        if isinstance(t, complex):
+            return None
+        return close(got, t, rtol=1e-7)
+    if c == ref:
+        return close(got, 1.0, rtol=1e-7)
+    if c in cats:
+        return sum(1 for v in th if close(got, (1 + v) if eff == 'cat' else v, rtol=1e-7)) == 1
+    return None
+
+
+def _run_cov2(case, K):
+    """two covariate effects added one after the other to the same parameter: the second call must compose with
+    the result of the first as documented, par2 = par1 (op2) effect2(cov2), whatever form (grouped effect
+    statement or not, same or other operation) the first call left the parameter in"""
+    P = pm()
+    fid = _fid(P.add_covariate_effect)
+    par = case['parameter']
+    (c1, e1, o1), (c2, e2, o2) = case['steps']
+    fail = _Fails(fid, f"{case['model']} add_covariate_effect({par},{c1},{e1},{o1!r}) ; "
+                       f"add_covariate_effect({par},{c2},{e2},{o2!r})")
+    m0 = base_model(case['model'])
+    try:
+        m1 = P.add_covariate_effect(m0, par, c1, e1, o1, allow_nested=True)
+    except Exception:
+        return {'nontrivial': False, 'fails': []}      # the single effect: family 'cov'
+    snap = _snapshot(m1)
+    try:
+        m2 = P.add_covariate_effect(m1, par, c2, e2, o2, allow_nested=True)
+    except Exception as e:
+        fail('completes without an undocumented exception', _exc_detail(e))
+        return {'nontrivial': True, 'fails': fail.items}
+    if not all(a == b for a, b in zip(snap, _snapshot(m1))):
+        fail('input model is not modified', 'input model changed')
+    seq = f'[{o1} then {o2}] '
+    th1 = [n for n in m1.parameters.names if n not in m0.parameters.names]
+    th2 = [n for n in m2.parameters.names if n not in m1.parameters.names]
+    if not th2 or any(n not in m2.parameters.names for n in th1):
+        fail(seq + 'the second effect adds its thetas and keeps the thetas of the first effect',
+             f'first {th1}, second {th2}, parameters {m2.parameters.names}')
+        return {'nontrivial': True, 'fails': fail.items}
+    df = m0.dataset
+    refs, cats, specials = {}, {}, []
+    for cov, eff in ((c2, e2), (c1, e1)):
+        cmin, cmax = float(df[cov].min()), float(df[cov].max())
+        if eff in _CONT:
+            refs[cov], cats[cov] = ref_median(m0, cov), []
+            sp = [refs[cov], cmin, cmax, (refs[cov] + cmax) / 2, (refs[cov] + cmin) / 2]
+        else:
+            refs[cov], cats[cov] = ref_mode(m0, cov)
+            sp = [refs[cov]] + [c for c in cats[cov] if c != refs[cov]]
+        specials += [(cov, v) for v in sp]
+    base_pts = _grid(m2, K)
+    pts = list(base_pts)
+    for j, (cov, sv) in enumerate(specials):
+        q = dict(base_pts[j % len(base_pts)])
+        q[cov] = sv
+        pts.append(q)
+    dvs, ips = _observables(m0)
+    nontriv = False
+
+    def apply(op, a, b):
+        return a * b if op == '*' else a + b
+
+    def effect_of(op, new, old):
+        return new / old if op == '*' else new - old
+
+    for pt in pts:
+        r0, r1 = _eval_or_none(m0, pt), _eval_or_none(m1, pt)
+        if r0 is None or r1 is None or par not in r1[0] or _isbad(r1[0][par]) or par not in r0[0] \
+                or _isbad(r0[0][par]):
+            continue
+        try:
+            d2 = eval_model(m2, pt)[0]
+        except Undefined as e:
+            fail('every symbol used is defined', str(e))
+            break
+        d0, d1 = r0[0], r1[0]
+        p0, p1, p2 = d0[par], d1[par], d2.get(par, float('nan'))
+        if p1 == 0 and o2 == '*':
+            continue
+        nontriv = True
+        got = effect_of(o2, p2, p1)
+        ok = _effect_as_documented(e2, got, pt[c2], refs[c2], cats[c2], [pt[n] for n in th2])
+        if ok is False:
+            fail(seq + 'after a second covariate effect the parameter equals (parameter with the first effect) '
+                 '(second operation) documented effect function of the second covariate',
+                 f'{par}: {p0!r} without effects, {p1!r} with the effect {e1} of {c1}={pt[c1]}; second effect {e2} of '
+                 f'{c2}={pt[c2]} (reference {refs[c2]}) with {o2!r} and thetas { {n: pt[n] for n in th2} }: model gives '
+                 f'{p2!r}, i.e. an effect value {got!r}')
+        if e1 in _CONT and e2 in _CONT and p0 != 0:
+            try:
+                t1 = ref_template(e1, pt[c1], [pt[n] for n in th1], refs[c1])
+                t2 = ref_template(e2, pt[c2], [pt[n] for n in th2], refs[c2])
+            except (ZeroDivisionError, ValueError, OverflowError, IndexError):
+                t1 = t2 = None
+            if t1 is not None and not isinstance(t1, complex) and not isinstance(t2, complex):
+                want = apply(o2, apply(o1, p0, t1), t2)
+                if not close(want, p2, rtol=1e-7):
+                    fail(seq + 'the parameter equals ((parameter without effects) (first operation) first effect '
+                         'function) (second operation) second effect function',
+                         f'{par}: {p0!r} without effects; {e1}({c1}={pt[c1]}) = {t1!r} with {o1!r}, then '
+                         f'{e2}({c2}={pt[c2]}) = {t2!r} with {o2!r}: expected {want!r}, model gives {p2!r}')
+        for n in ips:
+            if n != par and n in d1 and not _isbad(d1[n]) and not _downstream(m1, par, n):
+                if n not in d2 or not close(d1[n], d2[n]):
+                    fail('individual parameters that do not depend on the target parameter are unchanged',
+                         f'{n}: {d1[n]!r} -> {d2.get(n)!r}')
+    if cs_symbolic(m1) != cs_symbolic(m2):
+        fail('compartmental system is not modified', f'{cs_symbolic(m1)} -> {cs_symbolic(m2)}')
+    # removing the effect added last restores the function with the first effect only (remove_covariate_effect
+    # removes every effect of the covariate on the parameter: only when there was none before)
+    fidr = _fid(P.remove_covariate_effect)
+    if _depends_numerically(m1, par, c2):
+        return {'nontrivial': nontriv, 'fails': fail.items}
+    try:
+        m3 = P.remove_covariate_effect(m2, par, c2)
+    except Exception as e:
+        fail('completes without an undocumented exception', _exc_detail(e), fid=fidr)
+        return {'nontrivial': nontriv, 'fails': fail.items}
+    f2 = _Fails(fidr, fail.tag + f' ; remove_covariate_effect({par},{c2})')
+    _unchanged(f2, seq + 'remove_covariate_effect of the effect added last restores the model function with the '
+               'first effect', m1, m3, _grid(m1, K))
+    left = [n for n in th2 if n in m3.parameters.names]
+    if left:
+        f2('remove_covariate_effect removes the thetas of the effect', f'{left} still present')
+    fail.items.extend(f2.items)
+    return {'nontrivial': nontriv, 'fails': fail.items}
+
+
 def _downstream(model, par, other):
     """does `other` change when the value assigned to `par` is perturbed? (numeric dependency)"""
     from pharmpy.model import Assignment
@@ -2237,8 +2434,9 @@ def _run_iiv(case, K):
     P = pm()
     fid = _fid(P.add_iiv)
     par, expr, op = case['parameter'], case['expression'], case['operation']
-    fail = _Fails(fid, f"{case['model']} add_iiv({par},{expr},{op!r})")
-    m0 = base_model(case['model'])
+    fail = _Fails(fid, (f"{case['model']}" + (f"/{case['variant']}" if 'variant' in case else '')
+                        + f" add_iiv({par},{expr},{op!r})"))
+    m0 = _ext_variant(case)
     snap = _snapshot(m0)
     try:
         m1 = P.add_iiv(m0, par, expr, operation=op)
@@ -2323,8 +2521,8 @@ def _run_remove_iiv(case, K):
     P = pm()
     fid = _fid(P.remove_iiv)
     tg = case['target']
-    fail = _Fails(fid, f"{case['model']} remove_iiv({tg})")
-    m0 = base_model(case['model'])
+    fail = _Fails(fid, f"{case['model']}" + (f"/{case['variant']}" if 'variant' in case else '') + f" remove_iiv({tg})")
+    m0 = _ext_variant(case)
     iiv = list(m0.random_variables.iiv.names)
     if tg is None:
         expected = set(iiv)
@@ -3182,7 +3380,7 @@ def _run_transit(case, K):
 
 # -- driver ------------------------------------------------------------------------------------------
 
-_EXT_RUNNERS = {'cov': _run_cov, 'iiv': _run_iiv, 'remove_iiv': _run_remove_iiv, 'iov': _run_iov,
+_EXT_RUNNERS = {'cov2': _run_cov2, 'cov': _run_cov, 'iiv': _run_iiv, 'remove_iiv': _run_remove_iiv, 'iov': _run_iov,
                 'remove_iov': _run_remove_iov, 'transform': _run_transform, 'allometry': _run_allometry,
                 'error': _run_error, 'error_dv': _run_error_dv, 'transit': _run_transit}
 
